@@ -135,7 +135,7 @@ pub fn compile(sc: &K16) -> KChild {
         (Some(what), Some(i)) if i + 1 < connects.len() => vec![(i + 1, "airports.csv".to_string(), what.clone())],
         _ => vec![],
     };
-    KChild { file_ops, rust_log: sc.rust_log.clone(), gpsd: None, ev_delay_us: vec![], connects, events, proc_delay_us: sc.proc_delay_us.clone(), coalesce: sc.coalesce.clone(), step_budget: 60_000 }
+    KChild { tz: None, file_ops, rust_log: sc.rust_log.clone(), gpsd: None, ev_delay_us: vec![], connects, events, proc_delay_us: sc.proc_delay_us.clone(), coalesce: sc.coalesce.clone(), step_budget: 60_000 }
 }
 
 // ---------------------------------------------------------------------------- generation
